@@ -44,6 +44,7 @@ def make_interp(P, elem=None, hooks=True, assumptions=None):
         ec[path] = P.cls(mod, cls)
     I = Interp(P, elem_classes=ec, assumptions=assumptions or {})
     I.assumption_fns.append(species_nonempty)
+    I.assumption_fns.append(inputs_callable)
     if hooks:
         I.hooks.update(semantic_hooks())
     return I
@@ -58,6 +59,16 @@ def species_nonempty(cond):
 
 
 species_nonempty.text = "species labels are non-empty strings"
+
+
+def inputs_callable(cond):
+    """model inputs that stand for user-supplied potential functions are callable objects"""
+    if isinstance(cond, Cond) and cond.kind == "callable":
+        return True
+    return None
+
+
+inputs_callable.text = "model inputs standing for user-supplied functions are callable"
 
 
 def param(name):
